@@ -29,7 +29,8 @@ type meekServer struct {
 	downSent   int64 // downstream bytes handed out in completed responses
 	downTotal  int64
 	requests   int
-	idlePolls  int // consecutive empty exchanges at one virtual instant
+	chunked    bool // answers may come without an announced length (chunked)
+	idlePolls  int  // consecutive empty exchanges at one virtual instant
 	idlePollAt time.Duration
 	inFlight   int
 	maxBody    int
@@ -169,7 +170,27 @@ func (m *meekServer) serve(name string, conn *simnet.Conn) {
 			conn.Close()
 			return
 		}
-		if _, err := conn.Write(append([]byte(hdr), out...)); err != nil {
+		msg := append([]byte(hdr), out...)
+		if m.chunked && status == 200 && n > 0 && c.T.Draw("resp.chunked", 3) == 2 {
+			// the same body without an announced length (what a front that
+			// re-frames answers, or a handler that flushes early, produces):
+			// chunked transfer coding, in one to three chunks
+			msg = []byte(fmt.Sprintf("HTTP/1.1 %d X\r\nTransfer-Encoding: chunked\r\nContent-Type: application/octet-stream\r\n\r\n", status))
+			rest := out
+			for pieces := 1 + c.T.Draw("resp.chunks", 3); len(rest) > 0; pieces-- {
+				k := len(rest)
+				if pieces > 1 && k > 1 {
+					k = 1 + c.T.Draw("resp.chunklen", k-1)
+				}
+				msg = append(msg, fmt.Sprintf("%x\r\n", k)...)
+				msg = append(msg, rest[:k]...)
+				msg = append(msg, "\r\n"...)
+				rest = rest[k:]
+			}
+			msg = append(msg, "0\r\n\r\n"...)
+			c.S.Count("http-chunked-response", 1)
+		}
+		if _, err := conn.Write(msg); err != nil {
 			m.inFlight--
 			return
 		}
@@ -184,7 +205,7 @@ func runC16(c *harness.Ctx) {
 	c.S.ArmSelect()
 	c.S.MaxSteps = 1500000
 	ending := false
-	srv := &meekServer{c: c, sessions: map[string]int{}, ending: &ending}
+	srv := &meekServer{c: c, sessions: map[string]int{}, ending: &ending, chunked: true}
 	front := t.Draw("front", 2) == 1
 	// plans
 	upSizes := []int{1, 2, 100, 1000, 4096, 65535, 65536, 65537, 100000, 196608}
